@@ -20,6 +20,9 @@ forms: (round 3) the weight arrays come in float64 / float32 / int64 / int32 and
 alias: (round 4) what the integrand hands back: a third integrand per object is a coordinate x_d[c] (mostly of the last domain)
        that returns its own argument / a view of it / a read-only broadcast view; the other integrands also return a reused output
        buffer or a non-writable array.  After the calls the component grids must still hold their data.  Same in the histories.
+args:  (round 5) what the integrand accepts: on the non-vectorised routes a point-only integrand (every argument must be one point,
+       otherwise TypeError; or unchecked p[c] component indexing), on the vectorised routes an array-only integrand (leading arguments
+       single points, last argument an (n,)/(n,d) array taken apart with x[:, c]); any number of domains, also in the histories.
 hist:  (round 3) histories on ONE MultiDomainGrid object: integrate (any route), then re-weight a component grid
        (setter, in-place slice assignment, *=), move its points, or replace md.grid_list[j], then observe again;
        compared with run_history of the model (theorem history_routes_agree) and with the oracle on the current grids.
@@ -131,8 +134,12 @@ def domains_of(spec):
     return list(spec["grids"])
 
 
-def make_callable(poly, dims, rform="np"):
+def make_callable(poly, dims, rform="np", argform=None):
     """Python integrand from the monomial data; works point-wise and vectorised over the last argument.
+    argform: what the integrand accepts.  None: anything (broadcasting code).  "point": a point-only integrand, every argument must be
+    ONE point (a scalar for a 1-D grid, d numbers for a d-D grid), anything else raises TypeError as math.* / float() would;
+    "point-index": point-only code that takes components with p[c] and checks nothing (handed an array of points it computes with rows);
+    "vec": vectorised code, the leading arguments must be single points and the last one an array of points (taken apart with x[:, c]).
     rform: how the value is handed back (numpy scalar/array as computed, Python float, Python int / integer array, 0-d array;
     "alias": a coordinate integrand x_d[c] hands back its argument itself / a view of it / a read-only broadcast view, nothing is computed;
     "buffer": the same preallocated output array is filled and returned by every call; "readonly": a non-writable array)."""
@@ -140,9 +147,27 @@ def make_callable(poly, dims, rform="np"):
     coordinate = len(poly) == 1 and poly[0][0] == 1 and len(poly[0][1]) == 1 and poly[0][1][0][2] == 1
 
     def comp(a, d, c):
-        return a if dims[d] == 1 else a[..., c]
+        if dims[d] == 1:
+            return a
+        if argform == "point-index":
+            return a[c]
+        if argform == "vec" and np.ndim(a) == 2:
+            return a[:, c]
+        return a[..., c]
+
+    def check_args(args):
+        for d, a in enumerate(args):
+            shp = np.shape(a)
+            one = () if dims[d] == 1 else (dims[d],)
+            if argform == "vec" and d == len(args) - 1:
+                if len(shp) != len(one) + 1 or shp[1:] != one:
+                    raise TypeError(f"vectorised integrand: last argument must be an array of points, got shape {shp}")
+            elif shp != one:
+                raise TypeError(f"integrand accepts one point per argument (argument {d}: shape {shp}, expected {one})")
 
     def f(*args):
+        if argform in ("point", "vec"):
+            check_args(args)
         if rform == "alias" and coordinate:
             d, c, _ = poly[0][1][0]
             v = comp(args[d], d, c)
@@ -530,7 +555,7 @@ def hist_apply_state(state, op):
 
 def hist_observe(md, op, dims):
     """Integrate on the object as it is now."""
-    f = make_callable([(c, [tuple(x) for x in fs]) for c, fs in op["poly"]], dims, op.get("rform", "np"))
+    f = make_callable([(c, [tuple(x) for x in fs]) for c, fs in op["poly"]], dims, op.get("rform", "np"), op.get("argform"))
     route, c = op["route"], op.get("chunk")
     if route == "default":
         return md.integrate(f)
@@ -756,13 +781,18 @@ def run(ctx: Ctx):
                 continue
             rform = "alias" if pi == 2 else ctx.rng.choice(RFORMS)
             ctx.count(f"integrand_returns={rform}")
-            f = make_callable(poly, dims, rform)
+            af_vec = ctx.rng.choice([None, "vec"])
+            af_pt = ctx.rng.choice([None, "point", "point", "point-index"])
+            ctx.count(f"nonvec_integrand_accepts={af_pt or 'anything'}")
+            f = make_callable(poly, dims, rform, af_pt if d_nonvec else af_vec)  # used with the default route
+            f_vec = make_callable(poly, dims, rform, af_vec)
+            f_pt = make_callable(poly, dims, rform, af_pt)
             exp = oracle_integral(doms, poly)  # in units of 2^-G
             routes = [("default", None, lambda: md.integrate(f)),
-                      ("vec", None, lambda: md.integrate(f, non_vectorized=False)),
-                      ("nonvec-default-chunk", None, lambda: md.integrate(f, non_vectorized=True))]
+                      ("vec", None, lambda: md.integrate(f_vec, non_vectorized=False)),
+                      ("nonvec-default-chunk", None, lambda: md.integrate(f_pt, non_vectorized=True))]
             for c in chunk_list:
-                routes.append(("nonvec", c, (lambda c=c: md.integrate(f, non_vectorized=True, integration_chunk_size=c))))
+                routes.append(("nonvec", c, (lambda c=c: md.integrate(f_pt, non_vectorized=True, integration_chunk_size=c))))
             if spec["big"] and pi >= 1:
                 routes = routes[:3]
             if pi == 2:
@@ -770,7 +800,8 @@ def run(ctx: Ctx):
             for route, c, fn in routes:
                 st, v = observe(fn)
                 iv = as_int(v, G) if st == "ok" else None
-                rp = {"spec": spec, "poly": poly, "route": route, "chunk": c, "rform": rform, "expected": exp, "in_units_of_2^-": G,
+                af = af_pt if (route.startswith("nonvec") or (route == "default" and d_nonvec)) else af_vec
+                rp = {"spec": spec, "poly": poly, "route": route, "chunk": c, "rform": rform, "argform": af, "expected": exp, "in_units_of_2^-": G,
                       "reproduce": "see tools/props/c18.py: build_md(spec).integrate(make_callable(poly, dims), ...)"}
                 k = f"integrate:{route}:{c}:{key0}:{json.dumps(poly, separators=(',', ':'))}"
                 ctx.case(("int", i, pi, route, c))
@@ -873,6 +904,8 @@ def run(ctx: Ctx):
                 continue
             route = first_route if t == 0 else ctx.rng.choice(["default", "vec", "vec", "nonvec", "nonvec"])
             op = {"op": "int", "poly": polys[pi], "route": route, "rform": "alias" if pi == 2 else ctx.rng.choice(RFORMS)}
+            pointwise = route == "nonvec" or (route == "default" and d_nonvec)
+            op["argform"] = ctx.rng.choice([None, "point", "point", "point-index"]) if pointwise else ctx.rng.choice([None, "vec"])
             if route == "nonvec":
                 op["chunk"] = ctx.rng.choice([1, 2, 3, 7, max(total - 1, 1), total + 1, None])
             st, v = observe(lambda: hist_observe(md, op, dims))
@@ -1025,7 +1058,8 @@ def run(ctx: Ctx):
                        "of all terms is below 2^52 units in the last place (no rounding possible in a correct implementation). "
                        "What the integrand returns: additionally its own last argument or a view of it (coordinate integrands), a read-only broadcast view, "
                        "one reused output buffer, a non-writable array; the component grids are compared with their data after the calls. "
-                       "Histories: on one object, integrate / re-weight a component grid (setter, slice assignment, *=) / move its points / replace grid_list[j] / "
+                       "What the integrand accepts: point-only callables (shape-checked, or plain p[c] indexing) on the non-vectorised routes, array-only callables on the "
+                       "vectorised routes. Histories: on one object, integrate / re-weight a component grid (setter, slice assignment, *=) / move its points / replace grid_list[j] / "
                        "read size, points, weights, compared with run_history of the model and with the oracle on the current grids; failing histories are shrunk")
     ctx.cov["objects"] = len(specs)
     ctx.cov["coq_cases"] = len(cases)
@@ -1080,7 +1114,7 @@ def replay(rp):
         poly = [(c, [tuple(x) for x in fs]) for c, fs in rp["poly"]]
         doms = domains_of(spec)
         G = scale_bits(doms)
-        f = make_callable(poly, [g["dim"] for g in doms], rp.get("rform", "np"))
+        f = make_callable(poly, [g["dim"] for g in doms], rp.get("rform", "np"), rp.get("argform"))
         md = build_md(spec)
         route, c = rp["route"], rp.get("chunk")
         st, v = observe(lambda: md.integrate(f) if route == "default" else md.integrate(f, non_vectorized=False) if route == "vec"
